@@ -10,6 +10,11 @@ use std::cmp::Ordering;
 fn drive<P: ParallelIterator>(mut p: P, mut on_item: impl FnMut(usize, P::Item) -> bool) {
     let base = p.take_base();
     let n = base.len();
+    if n >= 2 {
+        if let Some((workers, chooser)) = simhook::mode_t(n) {
+            return drive_threads(p, base, workers, chooser, on_item);
+        }
+    }
     let mut order = simhook::order(n, std::any::type_name::<P>());
     // Tolerate a sloppy hook: whatever is missing from the permutation runs last, in order.
     let mut seen = vec![false; n];
@@ -27,6 +32,83 @@ fn drive<P: ParallelIterator>(mut p: P, mut on_item: impl FnMut(usize, P::Item) 
                     stop = true;
                 }
             });
+        }
+    }
+}
+
+struct AssertSync<T>(T);
+// Only `process(&self, ..)` is called through this wrapper from several threads; the stages'
+// closures are `Sync` by the bounds on the adaptors and the base holds no items any more.
+unsafe impl<T> Sync for AssertSync<T> {}
+unsafe impl<T> Send for AssertSync<T> {}
+
+/// Mode T: the section runs on real threads (2 MiB stacks, like upstream's workers); exactly one
+/// of them holds the simulator's baton at any time. Scheduling points: before claiming an item,
+/// at (seam) mutex operations, at the end of a worker. Which unclaimed item a worker takes is
+/// the scheduler's choice too.
+fn drive_threads<P: ParallelIterator>(
+    p: P, base: Vec<P::Base>, workers: usize, chooser: simhook::baton::Chooser, mut on_item: impl FnMut(usize, P::Item) -> bool,
+) {
+    use std::sync::atomic::{AtomicUsize, Ordering};
+    use std::sync::Mutex;
+    let n = base.len();
+    let w = workers.clamp(1, n);
+    let sched = simhook::baton::Sched::new(w, chooser);
+    let slots: Mutex<Vec<Option<P::Base>>> = Mutex::new(base.into_iter().map(Some).collect());
+    let remaining: Mutex<Vec<usize>> = Mutex::new((0..n).collect());
+    let seq = AtomicUsize::new(0);
+    let shared = AssertSync(&p);
+    let mut produced: Vec<(usize, usize, P::Item)> = Vec::new();
+    let mut panic_payload = None;
+    std::thread::scope(|scope| {
+        let handles: Vec<_> = (0..w)
+            .map(|t| {
+                let (sched, slots, remaining, seq, shared) = (&sched, &slots, &remaining, &seq, &shared);
+                std::thread::Builder::new()
+                    .stack_size(2 << 20)
+                    .spawn_scoped(scope, move || {
+                        sched.enter(t);
+                        let r = std::panic::catch_unwind(std::panic::AssertUnwindSafe(|| {
+                            let mut out: Vec<(usize, usize, P::Item)> = Vec::new();
+                            loop {
+                                sched.yield_point(t, "claim");
+                                let claimed = {
+                                    let mut rem = remaining.lock().unwrap();
+                                    if rem.is_empty() {
+                                        None
+                                    } else {
+                                        let k = sched.choose(rem.len(), "claim-item");
+                                        let i = rem.remove(k);
+                                        Some((i, slots.lock().unwrap()[i].take().expect("item claimed twice")))
+                                    }
+                                };
+                                let Some((i, b)) = claimed else { break };
+                                shared.0.process(i, b, &mut |x| out.push((seq.fetch_add(1, Ordering::SeqCst), i, x)));
+                            }
+                            out
+                        }));
+                        sched.finish(t);
+                        r
+                    })
+                    .expect("spawn simulated worker")
+            })
+            .collect();
+        sched.start();
+        for h in handles {
+            match h.join() {
+                Ok(Ok(out)) => produced.extend(out),
+                Ok(Err(p)) | Err(p) => panic_payload = Some(p),
+            }
+        }
+    });
+    if let Some(p) = panic_payload {
+        std::panic::resume_unwind(p);
+    }
+    // consumers see the values in completion order
+    produced.sort_by_key(|(s, _, _)| *s);
+    for (_, i, x) in produced {
+        if on_item(i, x) {
+            break;
         }
     }
 }
@@ -123,10 +205,7 @@ pub trait ParallelIterator: Sized + Send {
     where
         F: Fn(Self::Item) + Sync + Send,
     {
-        drive(self, |_, x| {
-            f(x);
-            false
-        })
+        drive(Map { p: self, f }, |_, ()| false)
     }
     fn collect<C>(self) -> C
     where
